@@ -29,6 +29,7 @@ ASSUMPTIONS = [
     "the documented delta is taken operationally from the run on the untransformed trigger, whose exact output the repository's unit tests pin (cross-checked by hand against core_codemods/docs for DESIGN.md appendix A)",
     "comments and whitespace inside a rewritten call are not part of the statement; operators/parentheses are not counted",
     "import statements are excluded from the token comparison (adding/replacing the import is part of every documented edit; dropped bindings are C02's business)",
+    "for harden-pyyaml an added positional/star argument is the Loader itself (yaml.load(stream, Loader)) and is excluded",
     "the import-alias transformation is not used here (it renames the very token the delta removes)",
 ]
 
@@ -142,8 +143,8 @@ def judge(cid, f, deltas, stats):
     except UnicodeDecodeError:
         return
     d = delta(before, after)
-    mv = moved_or_touched(before, after)
-    if d is None or mv is None:
+    mv = True
+    if d is None or tokens(before, True) is None or tokens(after, True) is None:
         stats.discard("untokenizable")
         return
     interesting = len(case["parts"]) > 1 or any(l in EXTRA_LABELS for l in feats)
@@ -156,15 +157,23 @@ def judge(cid, f, deltas, stats):
         stats.violation(cid, "token-added-outside-documented-delta", {"program": case}, json.dumps({"tokens": bad_add, **det})[:7000], features=feats)
     if bad_rem:
         stats.violation(cid, "token-lost-outside-documented-delta", {"program": case}, json.dumps({"tokens": bad_rem, **det})[:7000], features=feats)
-    deleted, inserted = mv
+    # order: with the delta's tokens removed on both sides, the remaining (non-import) token sequences must be equal
     allowed = allowed_add | allowed_rem
-    moved = sorted(t for t in (set(deleted) | set(inserted)) if t not in allowed)
-    if moved and not bad_add and not bad_rem:
-        stats.violation(cid, "token-outside-delta-moved", {"program": case}, json.dumps({"tokens": moved, **det})[:7000], features=feats)
+    seq_b = [t for t in tokens(before, True) if t not in allowed]
+    seq_a = [t for t in tokens(after, True) if t not in allowed]
+    if seq_b != seq_a and not bad_add and not bad_rem:
+        k = next((i for i, (x, y) in enumerate(zip(seq_b, seq_a)) if x != y), min(len(seq_b), len(seq_a)))
+        stats.violation(cid, "token-outside-delta-moved", {"program": case}, json.dumps({"first_difference": {"before": seq_b[k:k + 6], "after": seq_a[k:k + 6]}, **det})[:7000], features=feats)
 
 
 def no_alias(case):
-    return not any(o and o[0] == "alias" for p in case["parts"] for o in p["ops"])
+    ops = [o for p in case["parts"] for o in p["ops"] if o]
+    if any(o[0] == "alias" for o in ops):
+        return False
+    # yaml.load(stream, Loader): an added *positional* argument is the loader value itself, which the codemod replaces
+    if case["codemod"].endswith("/harden-pyyaml") and any(o[0] == "addarg" and o[2] in ("pos", "star") for o in ops):
+        return False
+    return True
 
 
 BUDGET = {"quick": {"n": 3, "batch": 16, "rotate": 5}, "thorough": {"n": 20, "batch": 24, "rotate": 1}}
